@@ -23,7 +23,7 @@ claimed.update({
  "C15": dict(text="PARTIAL: bounded symbolic verification of Request.UnmarshalParams (strict / non-strict / RawMessage / wrong kind) and of the array-to-field translation; the reflect-based Check/Wrap path (the property's main clause) is not applicable to this technique and is NOT claimed.", ref="4 (C15), 5", note="reflect not modelled; json stub"),
  "C16": dict(text="PARTIAL: bounded symbolic verification of Args (decode/encode) and Obj (decode) at JSON-token level for all element kinds, slot kinds and map orders; Positional/NewPos (reflect.StructOf/MakeFunc) is not applicable and NOT claimed.", ref="4 (C16), 5", note="reflect not modelled; json stub; <= 3 slots"),
  "C18": dict(text="Bounded symbolic run of the real Bridge.ServeHTTP over a real server.Local (threads) with symbolic members/ids; response body parsed back and matched to the request's calls; two concurrent callers with identical ids.", ref="4 (C18)", note="<= 2 members (thorough 3); HTTP stack replaced by recorders; delay bound 2"),
- "C19": dict(text="PARTIAL: bounded symbolic verification of ParseQuery/ParseBasic value typing, totality and marshalability, and of the Getter's status mapping over a real Local; the jhttp.Channel clause is outside this technique's reach here (stated in evidence and DESIGN.md).", ref="4 (C19), 5", note="strconv/base64 via representative strings; ParseForm stub; jhttp.Channel not covered"),
+ "C19": dict(text="Bounded symbolic verification of ParseQuery/ParseBasic value typing, totality and marshalability; the Getter's status mapping over a real Local; and a real Client over the real jhttp.Channel against a real Bridge through an in-process HTTPClient (results, body closing, no thread left after Close).", ref="4 (C19), 9.2", note="strconv/base64 via representative strings; ParseForm and http.NewRequest stubs; real net/http transport outside"),
  "C20": dict(text="Bounded symbolic run of the real Loop with real servers as engine threads over a scripted accepter; service/Finish accounting and return value asserted on every explored schedule.", ref="4 (C20)", note="<= 2 connections; delay bound 2; NetAccepter outside"),
  "C11": dict(text="Bounded symbolic round trip through the real Send, the real bufio.Reader (from source) and the real Recv for Split and Header framings under symbolic fragmentation; record bytes symbolic.", ref="4 (C11)", note="records <= 3 bytes (+ one long), 16-byte bufio buffer, listed chunk policies; RawJSON/Direct outside"),
  "C01": dict(text="Bounded symbolic run of the real dispatcher closure (handler goroutines as engine threads) with symbolic handler outcomes and ids; reply parsed back and compared per call.", ref="4 (C01)", note="batch <= 2 (thorough 3); json stub; delay-bounded scheduler"),
